@@ -37,13 +37,13 @@ pub fn check_case(c: &NetCase, obs: &mut Obs) -> Result<(), String> {
             if written.len() == 1 && p.f.modifier_option.as_deref() != Some(written[0]) {
                 return Err(format!("rule {:?}: parameter name as written {:?}, parsed as {:?}", p.line, written[0], p.f.modifier_option));
             }
-            if opts.split(',').any(|o| o.starts_with('~') && crate::model::opts::type_option_class(&o[1..]).is_some()) {
-                continue; // negated types: covered by C03's option model
-            }
+            let negated: Vec<&str> = opts.split(',').filter(|o| o.starts_with('~')).filter_map(|o| crate::model::opts::type_option_class(&o[1..])).collect();
             let mut allowed: Vec<&str> = opts.split(',').filter_map(crate::model::opts::type_option_class).collect();
             if allowed.is_empty() {
                 allowed = vec!["document", "subdocument", "xmlhttprequest"];
             }
+            // negated types only take away (for removeparam they do not imply "all other types")
+            allowed.retain(|a| !negated.contains(a));
             if let Some(t) = crate::model::opts::request_type_class(&r.rtype, &scheme) {
                 if !allowed.contains(&t) {
                     return Err(format!("request {:?} (type class {:?}): removeparam rule {:?} is applied although its text restricts it to {:?}", r, t, p.line, allowed));
@@ -122,7 +122,7 @@ pub fn decode(t: &mut Tape) -> NetCase {
         let p = t.choose(&["*", "||x.com^", "||y.org/p", "/p?", "", "|https://", "||shop.x.com^", "?utm"]);
         let mut opts = vec![format!("removeparam={}", t.choose(&params))];
         if t.chance(1, 4) {
-            opts.push(t.choose(&["document", "xhr", "script", "~xhr", "domain=site.org", "3p", "1p", "important", "image"]).to_string());
+            opts.push(t.choose(&["document", "xhr", "script", "~xhr", "domain=site.org", "3p", "1p", "important", "image", "script,~image", "~image,script", "xhr,~script", "~document"]).to_string());
         }
         rules.push(format!("{}${}", p, opts.join(",")));
     }
